@@ -98,6 +98,9 @@ def tuple_to(x):
 
 
 def evaluate(item):
+    if isinstance(item, dict) and item.get("kind") == "wide":
+        from mc.props import wide
+        return wide.eval_c10(item)
     spec = to_spec(item)
     obs = common.run_spec(spec)
     if obs.get("error"):
@@ -130,12 +133,14 @@ def trait(item, clause, detail, fid):
 def run(ctx):
     st = Stats()
     explore(ctx, universe(ctx.tier), "mc.props.c10:evaluate", st, payload=payload, sample_of=sample, trait=trait)
+    from mc.props import wide
+    wide.sweep(ctx, st, "C10")
     common.vacuity_guard(ctx, st)
     cov = st.coverage(
         "all ordered forests with 2..4 (thorough 5) nodes, height <= 3, containing a container x leaf kinds^leaves x dated-container variant "
         "x ASAP/ALAP; states = distinct schedule observations; transitions = placements + bookings; non-trivial = mixed leaf kinds or a "
         "dated container")
-    return ctx.finish(cov, ASSUME)
+    return ctx.finish(cov, ASSUME + [wide.NOTE])
 
 
 def replay(path):
